@@ -175,6 +175,7 @@ def run_flow(units_kw, nfrac, perm, visc, dp):
 
 # ------------------------------------------------------------------------------------------
 class C43(Prop):
+    translator_output = True  # coq/Gen/C43_tables.v is regenerated from /repo (also by setup.sh)
     id = "C43"
     props_file = "Props/C43.v"
     preamble = ("From Coq Require Import String List ZArith QArith.\nImport ListNotations.\n"
